@@ -17,6 +17,8 @@ and `Query.HasGroupBy()`; `baseStage.execute` runs them in order on one shared e
   condition: the selected series are exactly the written series of the metric (plus
   `series.IDWithoutTags` when the query has no group-by — the code adds it unconditionally), and
   group-by returns for each of them that carries all keys exactly its tag values.
+* `nocond_selects_exactly_written` — on every history the added id 0 is the metric's first series
+  (`series_ids_dense`), so the selection is exactly the written series of the metric.
 * `nocond_state_invariance` — same writes, any placement of flush / compaction steps: same answer.
 -/
 import LinVerif.Props.C10Eval
@@ -202,6 +204,34 @@ theorem nocond_groupby_values (F : Flags) (memoise : Bool) (M : Matcher) (st : S
 /-- the series store mirrors the written series on every history (no hypothesis on the writes) -/
 theorem series_store_mirrors_written (F : Flags) (ops : List Op) : SeriesProj (run F ops State.init) :=
   run_seriesProj F ops seriesProj_init
+
+/-- series ids of a metric are dense on every history -/
+theorem series_ids_dense (F : Flags) (ops : List Op) : SeriesDense (run F ops State.init) :=
+  run_seriesDense F ops seriesDense_init
+
+/-- **nocond_selects_exactly_written.** On every history (any flag values, any placement of flush /
+compaction steps) the query without a condition selects EXACTLY the written series of the metric:
+the `series.IDWithoutTags` that `metricAllSeries.Execute` adds for a query without group-by is the id
+of the metric's first series (ids are 0, 1, 2, … per metric), so it never adds a series that was not
+written. -/
+theorem nocond_selects_exactly_written (F : Flags) (memoise : Bool) (M : Matcher) (ops : List Op) (m : Metric)
+    (keys : List Bytes) {r : LeafResult} (h : leafPlan F memoise M (run F ops State.init) m keys none = .ok r) :
+    ∀ s, s ∈ r.series ↔ ∃ t, (m, s, t) ∈ (run F ops State.init).written := by
+  have hp := series_store_mirrors_written F ops
+  have hd := series_ids_dense F ops
+  intro s
+  rw [(nocond_selects_all F memoise M _ hp m keys h).1 s]
+  constructor
+  · rintro (h1 | ⟨_, h2⟩)
+    · exact h1
+    · have hk : metricKnown (run F ops State.init) m = true := by
+        rw [leafPlan_none] at h
+        cases hk : metricKnown (run F ops State.init) m with
+        | true => rfl
+        | false => simp [hk] at h
+      rw [h2]
+      exact (allSeries_iff_written hp m 0).mp (zero_mem_allSeries hd hk)
+  · exact fun h1 => Or.inl h1
 
 /-- **nocond_selects_all, current source**, on every reachable state. -/
 theorem nocond_selects_all_now (ops : List Op) (M : Matcher) (m : Metric) (keys : List Bytes) {r : LeafResult}
